@@ -1,5 +1,6 @@
 from common import *
 from c12 import replay_one
+from l2part import run_l2_part
 
 
 def run(tier, replay=None):
@@ -15,9 +16,14 @@ def run(tier, replay=None):
                       "the real main() runs over the engine's virtual file system (exit status, stdout, written files)"]
     rp = NativeReplayer(mod, "main", hp, whole_program=True)
     if replay:
+        j = json.load(open(replay))
+        if j.get("harness", "").startswith("Harness_C09L2_"):
+            return replay_one(ck, run_l2_part(Check("C09", tier, "model_checking"), "C09", "c09", "^$", {}, tier), replay, {})
         return replay_one(ck, rp, replay, env)
     res = run_symgo(mod, hp, "main", "^Harness_C09_", steps=5000000, env=env, maxpaths=2000000,
                     timeout=600 if tier == "quick" else 3000)
     ck.add_run(res)
     ck.handle_violations(res, rp, env=env, timeout=60)
+    # the consequence clause end to end: accepted programs through the freshly built fc, their matches run on every value
+    run_l2_part(ck, "C09", "c09", "^Harness_C09L2_", {}, tier)
     return ck.finish()
